@@ -41,6 +41,22 @@ def gen_cases(rng, tier):
         for s in spec["states"] + spec["controls"]:
             if not s.get("quad") and rng.random() < 0.5:
                 guesses.append({"target": s["name"], "kind": "const", "val": ocpgen.rnd(rng, -2, 2)})
+        if rng.random() < 0.5:
+            # guesses in the containers users have at hand: numpy arrays per control interval, horizon guesses
+            from . import c10
+            for s in spec["states"] + spec["controls"]:
+                if not s.get("quad") and s["shape"][1] == 1 and rng.random() < 0.5:
+                    g = c10.gen_guess(rng, spec, s, "state" if s in spec["states"] else "control")
+                    if g["kind"] == "array" and "ncol" in g:
+                        g["as"] = "numpy"
+                    guesses.append(g)
+            for key in ("T", "t0"):
+                if spec[key]["kind"] == "free" and rng.random() < 0.7:
+                    val = ocpgen.rnd(rng, 0.3, 3.0, 3) if key == "T" else ocpgen.rnd(rng, -2, 2, 3)
+                    guesses.insert(rng.randint(0, len(guesses)), {"target": key, "kind": "const", "val": val})
+        for p_ in spec["params"]:
+            if p_.get("value") is not None and p_.get("role") != "horizon":
+                p_["value_as"] = rng.choice(["DM", "numpy", "numpy"])
         spec["initial"] = guesses
         phase = rng.choice(["before", "after_transcription", "after_solve", "after_edit"])
         if spec["method"]["cls"] in ("MS", "SS") and spec["method"].get("intg") not in ("rk", "expl_euler") \
@@ -70,7 +86,8 @@ def gen_cases(rng, tier):
                 if spec["params"] and rng.random() < 0.6:
                     p = rng.choice(spec["params"])
                     from .c09 import rand_value
-                    updates.append({"op": "set_value", "name": p["name"], "value": rand_value(rng, p, spec["method"]["N"])})
+                    updates.append({"op": "set_value", "name": p["name"], "value": rand_value(rng, p, spec["method"]["N"]),
+                                    "value_as": rng.choice(["DM", "numpy"]) if p.get("role") != "horizon" else "DM"})
                 elif spec["controls"]:
                     u = rng.choice(spec["controls"])
                     updates.append({"op": "set_initial", "name": u["name"], "value": ocpgen.rnd(rng, -2, 2)})
@@ -81,7 +98,8 @@ def gen_cases(rng, tier):
                 if spec["params"] and rng.random() < 0.6:
                     p = rng.choice(spec["params"])
                     from .c09 import rand_value
-                    resave.append({"op": "set_value", "name": p["name"], "value": rand_value(rng, p, spec["method"]["N"])})
+                    resave.append({"op": "set_value", "name": p["name"], "value": rand_value(rng, p, spec["method"]["N"]),
+                                   "value_as": rng.choice(["DM", "numpy"]) if p.get("role") != "horizon" else "DM"})
                 elif spec["controls"]:
                     u = rng.choice(spec["controls"])
                     resave.append({"op": "set_initial", "name": u["name"], "value": ocpgen.rnd(rng, -2, 2)})
@@ -254,7 +272,7 @@ def run_case(case):
             stats0 = sol.stats
         for u in case["updates"]:
             if u["op"] == "set_value":
-                C.call("set_value(transcribed)", b.stage.set_value, b.syms[u["name"]], build.param_value({"value": u["value"]}))
+                C.call("set_value(transcribed)", b.stage.set_value, b.syms[u["name"]], build.param_value(u))
             else:
                 C.call("set_initial(transcribed)", b.stage.set_initial, b.syms[u["name"]], u["value"])
         if obs is not None:
@@ -267,7 +285,7 @@ def run_case(case):
         if case.get("resave"):
             for u in case["resave"]:
                 if u["op"] == "set_value":
-                    C.call("set_value(after save)", b.stage.set_value, b.syms[u["name"]], build.param_value({"value": u["value"]}))
+                    C.call("set_value(after save)", b.stage.set_value, b.syms[u["name"]], build.param_value(u))
                 else:
                     C.call("set_initial(after save)", b.stage.set_initial, b.syms[u["name"]], u["value"])
             C.call("save(again)", b.ocp.save, fname)
@@ -276,10 +294,19 @@ def run_case(case):
         # the original after saving
         obs1 = engine.Observed(spec, b)
         if obs is None:
-            ref_x0, ref_p0 = obs1.view.x0.copy(), obs1.view.p0.copy()
-            pts = [obs1.view.random_point(rng) for _ in range(3)]
-            ref_eval = [obs1.view.eval(w, ref_p0) for w in pts]
-            ref_phys = [obs1.rb(w, ref_p0) for w in pts]
+            # reference: the same declarations made afresh on an OCP that is never saved
+            b_ref = build.build_ocp(spec)
+            for u in list(case["updates"]) + list(case.get("resave") or []):
+                if u["op"] == "set_value":
+                    b_ref.stage.set_value(b_ref.syms[u["name"]], build.param_value(u))
+                else:
+                    b_ref.stage.set_initial(b_ref.syms[u["name"]], u["value"])
+            obs_ref = engine.Observed(spec, b_ref)
+            ref_x0, ref_p0 = obs_ref.view.x0.copy(), obs_ref.view.p0.copy()
+            pts = [obs_ref.view.random_point(rng) for _ in range(3)]
+            ref_eval = [obs_ref.view.eval(w, ref_p0) for w in pts]
+            ref_phys = [obs_ref.rb(w, ref_p0) for w in pts]
+            res["counters"]["fresh_reference"] = 1
         b2 = loaded_built(ocp2, spec)
         obs2 = engine.Observed(spec, b2)
     except C.RockitRaised as e:
@@ -353,7 +380,7 @@ def run_case(case):
         return True
 
     ok = compare("loaded OCP", obs2, "loaded")
-    if ok and obs is not None:
+    if ok:
         res["counters"]["original_after_save"] += 1
         compare("original after save()", obs1, "original-after-save")
     if ok and case.get("solve_loaded") and spec["method"].get("intg") in (None, "rk", "expl_euler") and not res["violations"]:
